@@ -5,6 +5,7 @@ package dl
 import (
 	"context"
 	"errors"
+	"math"
 	"testing"
 	"time"
 
@@ -122,6 +123,11 @@ func TestC09Sequential(t *testing.T) {
 				case kind == 2:
 					to = now
 					name = "now"
+				case kind == 3 && rapid.Bool().Draw(t, "farthest"):
+					// as far away as a time.Time or a time.Duration can say
+					to = []time.Time{time.Date(9999, 12, 31, 23, 59, 59, 0, time.UTC), time.Unix(1<<40, 0), now.Add(time.Duration(math.MaxInt64))}[rapid.IntRange(0, 2).Draw(t, "which")]
+					name = "farthest"
+					c.Label("set/farthest")
 				default:
 					to = now.Add(time.Duration(rapid.SampledFrom([]int{1, 2, 5, 10}).Draw(t, "d")) * unit)
 					name = "future"
